@@ -84,7 +84,7 @@ def pre_parse_tok(idx: List[int]) -> bool:
     return in_shard(idx[0] if len(idx) > 0 else 0)
 
 
-@harness(pre=pre_parse_tok, quick=dict(N=3, NT=12, timeout=100), thorough=dict(N=4, NT=len(TOK), timeout=1400),
+@harness(pre=pre_parse_tok, quick=dict(N=3, NT=12, timeout=100, reach_timeout=100), thorough=dict(N=4, NT=len(TOK), timeout=1400),
          nshards=dict(quick=4, thorough=38),
          reach=["nested_ok", "break_outside_loop", "else_wrong_parent", "missing_end", "break_in_if_in_for"],
          units=["template._parse", "template._TemplateReader"],
@@ -96,14 +96,13 @@ def h_parse_tok(idx: List[int]):
     """nesting / intermediate-block / break-outside-loop rules on pooled directive tokens."""
     text = "".join([TOK[i] for i in idx])
     r = compare_parse(text)
-    if len(idx) == 3 and idx[0] == 0 and idx[1] == 1 and idx[2] == 2:
-        assert r == "ok"
+    if r == "ok" and len(idx) == 3 and (idx[0] == 0 or idx[0] == 3 or idx[0] == 8 or idx[0] == 9) and idx[2] == 2:
         reached("nested_ok")
     if len(idx) == 1 and idx[0] == 4:
         assert r == "err"
         reached("break_outside_loop")
-    if len(idx) == 3 and idx[0] == 3 and idx[1] == 10 and idx[2] == 2:
-        assert r == "err"
+    if len(idx) >= 2 and (idx[0] == 0 or idx[0] == 3) and idx[1] == 10:
+        assert r == "err", "except attached to if/for must be rejected"
         reached("else_wrong_parent")
     if len(idx) == 2 and idx[0] == 6 and idx[1] == 0:
         assert r == "err"
@@ -235,7 +234,7 @@ def pre_gen(ti: int, s: str, n: int, r: List[int]) -> bool:
     return in_shard(ti)
 
 
-@harness(pre=pre_gen, quick=dict(L=1, R=2, timeout=45), thorough=dict(L=2, R=3, timeout=400),
+@harness(pre=pre_gen, quick=dict(L=1, R=2, timeout=60, reach_timeout=100), thorough=dict(L=2, R=3, timeout=400),
          nshards=dict(quick=len(GEN), thorough=len(GEN)),
          reach=["escaped_value", "extends_override", "included", "loop_broken"],
          units=["template.Template.__init__", "template.Template.generate", "template.Template._generate_python",
@@ -256,7 +255,7 @@ def h_gen(ti: int, s: str, n: int, r: List[int]):
     loader = T.DictLoader(files, namespace={"wrap": _wrap})
     out = loader.load(main).generate(s=s, n=n, r=r)
     want = want_fn(s, n, r).encode("utf-8")
-    if ti == 0 and "<" in s:
+    if s == "<" and b"&lt;" in out:
         reached("escaped_value")
     if ti == 20:
         reached("extends_override")
